@@ -51,6 +51,11 @@ FLAVOUR = {
    2. if the property's code really cannot be influenced from there: a FUNCTION, BRANCH or DEFAULT ARGUMENT of its own files that none of the earlier ideas listed below went through (read the list, then read the code for what is missing from it);
    3. a change that ADDS a new helper / class / module and routes existing code through it, with the defect in the new code.
  Say at the top of each section of NOTES.md which of 1/2/3 it is. Ordinary everyday use must keep working - do NOT make a change that the first simple request would expose.""",
+ 14: """This round is about Python's protocols; make one change of each kind (pick, within each kind, what fits this property's code best):
+   A. EXCEPTION FLOW: a try/except/finally reshaped - an except clause widened or narrowed (Exception vs BaseException, a tuple of classes, a parent class that also catches something else), `raise ... from`, re-raising as another type, an exception swallowed by `return`/`break`/`continue` inside `finally`, contextlib.suppress / ExitStack, cleanup moved before or after the re-raise, an error raised earlier or later than before (at call time instead of at first iteration, at construction instead of at use), StopIteration / StopAsyncIteration / GeneratorExit / CancelledError / KeyboardInterrupt treated like ordinary errors (or the reverse).
+   B. ITERATOR / GENERATOR / CONTEXT-MANAGER PROTOCOL: a generator turned into a plain function returning an iterator (or the reverse), `yield from` vs a loop, `return value` inside a generator, an iterable consumed twice or handed on half-consumed, `iter()` called once too often or too seldom, `close()` / `aclose()` / `__exit__` / `__aexit__` not reached on one path, `next(it, default)`, `zip` / `islice` / `chain` truncation, an async generator finalised late, `async with` / `async for` replaced by manual calls.
+   C. DATA-MODEL PROTOCOL: `__eq__` / `__hash__` / `__bool__` / `__len__` / `__contains__` / `__iter__` / `__getitem__` (negative index, slice) / `__repr__` / `__str__` / `__bytes__` / `__copy__` / `__deepcopy__` / pickling / `__slots__` / `__init_subclass__` / `__getattr__` / descriptors (`property`, `cached_property`, classmethod vs staticmethod) / isinstance checks that exclude subclasses or include too much (bool is an int, str is a Sequence, bytes vs bytearray vs memoryview) - changed so that some legal use the property covers behaves differently.
+ Ordinary everyday use must keep working - do NOT make a change that the first simple request would expose.""",
  5: """This round is about interactions; make three changes, each of which needs TWO things at once to show (neither alone exposes it): e.g. a feature used through a second public entry point, inside a mount or middleware, on the second use of an object, with a particular header present, with a particular chunking AND a particular content, on one interface only AND only for one method. Ordinary everyday use must keep working - do NOT make a change that the first simple request would expose.""",
 }
 
